@@ -334,17 +334,23 @@ def _kmg_list(st):
 
 
 def _gba_result(eng, st, E):
+    """a new list whose elements are (non-None) MEMBERS of the DictList: element j is the member at the ghost position idx[j]"""
     from pyvc.state import alloc_list
-    st, l = alloc_list(st, "ref:Gene")
+    srec = st.objs[E["self"].oid]
+    st, l = alloc_list(st, srec.get("ekind", "ref:Gene"))
     n, e = st.objs[l.oid]["len"], st.objs[l.oid]["elem"]
     j = qv("gj")
-    st = st.assume(n >= 0, FA([j], z3.Implies(z3.And(0 <= j, j < n), z3.Select(e, j) != NULL), patterns=[z3.Select(e, j)]))
-    return st.setghost("kmg_list", l), l
+    idx = fresh("gba_idx", z3.ArraySort(z3.IntSort(), z3.IntSort()))
+    st = st.assume(n >= 0, FA([j], z3.Implies(z3.And(0 <= j, j < n),
+                                              z3.And(z3.Select(e, j) != NULL, 0 <= idx[j], idx[j] < srec["len"],
+                                                     z3.Select(srec["elem"], idx[j]) == z3.Select(e, j))),
+                              patterns=[z3.Select(e, j)]))
+    return st.setghost("kmg_list", l).setghost("gba_list", l), l
 
 
 REG.add(Contract("cobra/core/dictlist.py", "DictList.get_by_any", "C07", [("self", TDictList("Gene")), ("iterable", TNone())],
                  [Case("any", ensures=lambda E: z3.BoolVal(True))], assumed=True, key="DictList.get_by_any", result=_gba_result,
-                 note="model.genes.get_by_any(items): a NEW list of (non-None) members, one per item, looked up by index / identifier "
+                 note="<DictList>.get_by_any(items): a NEW list of (non-None) members of the list, one per item, looked up by index / identifier "
                       "/ identity; may raise for an unknown item (then nothing has been changed)"))
 REG.get("DictList.get_by_any").cases[0].may_raise = "KeyError"
 
